@@ -13,9 +13,7 @@ open Fsn
 
 /-- a combination of native flags yields exactly the union of what its parts yield -/
 theorem inotify_union (a b : BitVec 32) :
-    Gen.inotifyNewEventOp (a ||| b) = Gen.inotifyNewEventOp a ||| Gen.inotifyNewEventOp b := by
-  simp only [Bridge.inotifyNewEventOp_eq]
-  exact applyRules_or (by decide) a b
+    Gen.inotifyNewEventOp (a ||| b) = Gen.inotifyNewEventOp a ||| Gen.inotifyNewEventOp b := EventOp.inotify_union a b
 
 /-- the documented mapping, one operation at a time -/
 theorem inotify_mapping (m : BitVec 32) :
@@ -36,28 +34,8 @@ theorem inotify_mapping (m : BitVec 32) :
 /-- housekeeping bits (`IN_ISDIR`, `IN_IGNORED`, `IN_UNMOUNT`, `IN_Q_OVERFLOW`, the control bits)
 contribute no operation, alone or combined with anything -/
 theorem inotify_housekeeping_silent (m h : BitVec 32)
-    (hh : h &&& 0xfff#32 = 0#32) : Gen.inotifyNewEventOp (m ||| h) = Gen.inotifyNewEventOp m := by
-  rw [inotify_union]
-  have : Gen.inotifyNewEventOp h = 0#32 := by
-    rw [Bridge.inotifyNewEventOp_eq]
-    have ht : ∀ f, f &&& 0xfff#32 = f → f ≠ 0#32 → test h f = false := by
-      intro f hf hne
-      unfold test
-      have : h &&& f = 0#32 := by
-        calc h &&& f = h &&& (0xfff#32 &&& f) := by rw [BitVec.and_comm 0xfff#32 f, hf]
-          _ = (h &&& 0xfff#32) &&& f := by rw [BitVec.and_assoc]
-          _ = 0#32 := by rw [hh]; simp
-      rw [this]
-      simpa using fun h' => hne h'.symm
-    simp only [Fsn.inotifyNewEventOp, applyRules, inotifyRules, List.foldl, List.any, Bool.or_false]
-    rw [ht IN_CREATE (by decide) (by decide), ht IN_MOVED_TO (by decide) (by decide),
-      ht IN_DELETE_SELF (by decide) (by decide), ht IN_DELETE (by decide) (by decide),
-      ht IN_MODIFY (by decide) (by decide), ht IN_OPEN (by decide) (by decide),
-      ht IN_ACCESS (by decide) (by decide), ht IN_CLOSE_WRITE (by decide) (by decide),
-      ht IN_CLOSE_NOWRITE (by decide) (by decide), ht IN_MOVE_SELF (by decide) (by decide),
-      ht IN_MOVED_FROM (by decide) (by decide), ht IN_ATTRIB (by decide) (by decide)]
-    decide
-  rw [this]; simp
+    (hh : h &&& 0xfff#32 = 0#32) : Gen.inotifyNewEventOp (m ||| h) = Gen.inotifyNewEventOp m :=
+  EventOp.inotify_housekeeping_silent m h hh
 
 example : (IN_ISDIR ||| IN_IGNORED ||| IN_UNMOUNT ||| IN_Q_OVERFLOW) &&& 0xfff#32 = 0#32 := by decide
 
